@@ -85,7 +85,9 @@ def fixed(case):
         table.children = [SimpleNamespace(children=[row])]
     wrapper = SimpleNamespace(get_wrapped_table=lambda: table)
     T.fixed_table_layout(wrapper)
-    return [str(table.width), _strs(table.column_widths)]
+    vals = [table.width] + list(table.column_widths)
+    inexact = any(isinstance(v, float) for v in vals)     # the source mixes a float 0.0 in (max(0, width) / n)
+    return [str(Fraction(table.width)), [str(Fraction(w)) for w in table.column_widths], inexact]
 
 
 # ------------------------------------------------------------------ direct: auto_table_layout
